@@ -41,17 +41,22 @@ MODEL_OF_CODE = os.environ.get("C01_MODEL_OF_CODE", "cartfixed")  # /repo has fi
 # which constructors of `Ast.Term` are inside the proved fragment (`Core.inFragment`, see Props/C01.lean);
 # the measured number of generated programs inside the fragment comes from the driver (flag F).
 FRAGMENT_DOC = {
-    "inside (refinement theorem run_refines_eval_partial)": [
-        "id", "num", "str: plain literal", "arr (some f)", "neg", "pipe l none r", "pipe l (some (var x)) r",
-        "binop comma/alt/or/and/math/cmp", "label", "brk", "tryCatch f (some c)", "ite with one `if … then …` and an optional else",
+    "inside (refinement theorem run_refines_eval_partial; program compiled with the prelude definition `!empty`)": [
+        "id", "recurse (..)", "num", "str: literals and interpolation \\(f) (no @format)", "arr (some f)", "arr none ([])",
+        "obj: {(k): v}, {k: v}, {$x}, {k}, {} with multi-valued keys and values", "neg",
+        "pipe l none r", "pipe l (some PATTERN) r with variable, array and object patterns, computed keys (f): p, nested to any depth",
+        "binop comma/alt/or/and/math/cmp", "label", "brk", "tryCatch f (some c)", "tryCatch f none (try f, f?)",
+        "ite with any number of elif branches and an optional else",
         "defs (any number of definitions, any arity, `$` and filter parameters, nested/shadowed/recursive)",
-        "call (locals: arguments, siblings, parents; any arity)", "var",
-        "fold reduce/foreach (with and without projection) with a variable pattern",
+        "call (locals: arguments, siblings, parents; any arity; the native error_empty)", "var",
+        "fold reduce/foreach (with and without projection) with ANY pattern",
+        "path f[x], f[x:y], f[x:], f[:y], f[], each with and without `?`, any number of parts (cartesian order of explode)",
     ],
+    "theorems for every term (no fragment hypothesis)": ["compile_tr_subset", "compile_appends"],
     "correspondence only": [
-        "recurse (..)", "str with interpolation / @format / empty string", "elif chains", "arr none ([]) and tryCatch f none (compiled to the prelude call !empty)",
-        "obj", "destructuring patterns (arr/obj)", "path (index, slice, iterate, optional)",
-        "calls of prelude (module 0) definitions and natives", "CallType other than Inline is executed inline (stage C not proved)",
+        "str with @format", "calls of prelude (module 0) definitions other than `!empty`, natives other than error_empty",
+        "CallType other than Inline is executed inline (stage C `tco_invisible` not proved)",
+        "the path variant of the dropped left error (Path::combinations as written) — the theorem is about pathDropsErr = false",
     ],
     "not modelled (driver answers UNSUPPORTED)": ["assign/update/updateMath/updateAlt (C02)", "@format strings", "`/` (float results are not rendered in error messages)"],
 }
